@@ -15,7 +15,8 @@ from optimum.quanto.nn import QModuleMixin
 from optimum.quanto.tensor.qbits.packed import PackedTensor
 
 ACT = {"none": None, "qint8": O.QT8["qint8"], "qfloat8_e4m3fn": O.QT8["qfloat8_e4m3fn"], "qfloat8_e5m2": O.QT8["qfloat8_e5m2"]}
-STEPS = ["forward", "calibrate", "calibrate-grad", "freeze", "freeze", "freeze_again", "deepcopy", "to_cpu_copy", "reload", "channels_last", "continue_on_copy"]
+STEPS = ["forward", "calibrate", "calibrate-grad", "freeze", "freeze", "freeze_again", "deepcopy", "to_cpu_copy", "reload", "channels_last", "continue_on_copy",
+         "freeze_one", "freeze_one"]
 
 
 @st.composite
@@ -210,6 +211,23 @@ def _exec_history(case):
                     out.fail(f"freeze/{wk}/touched-something-else", f"freeze() changed {d}")
             check_frozen_storage(out, model, wq, "freeze")
             frozen = True
+        elif st_ == "freeze_one":
+            # module-level freeze of ONE quantized module: the model is partially frozen until freeze(model) is called
+            qmods = [m for m in model.modules() if isinstance(m, QModuleMixin) and m.weight_qtype is not None]
+            if not qmods:
+                continue
+            k = (case["seed"] + len(did)) % len(qmods)
+            y0 = run_probes(model)
+            r = cut(qmods[k].freeze)
+            if isinstance(r, Raised):
+                return out.fail(f"freeze_one-raises:{r.type}/{wk}", r.text)
+            y1 = run_probes(model)
+            if isinstance(y0, Raised) or isinstance(y1, Raised):
+                return out.fail(f"forward-around-freeze-raises/{wk}", f"{y0} / {y1}")
+            if not same_outputs(y0, y1):
+                out.fail(f"freeze_one/{wk}/output-changed", f"outputs before and after freezing one module differ ({case['wq']}, act {case['aq']}, {case['dtype']}, {fam})")
+            if not qmods[k].frozen:
+                out.fail(f"freeze_one/{wk}/weight-not-quantized", "module.freeze() left a float weight")
         elif st_ in ("deepcopy", "to_cpu_copy", "reload", "continue_on_copy"):
             y0 = run_probes(model)
             if isinstance(y0, Raised):
@@ -242,14 +260,14 @@ def _exec_history(case):
             if st_ == "continue_on_copy":
                 model = m2
         elif st_ == "channels_last":
-            if fam != "conv" or frozen:
-                continue  # (memory-format changes of an already frozen model are not part of the property)
+            if fam != "conv" or frozen or "freeze_one" in did:
+                continue  # (memory-format changes of an already (partially) frozen model are not part of the property)
             r = cut(lambda: model.to(memory_format=torch.channels_last))
             if isinstance(r, Raised):
                 return out.fail(f"channels_last-raises:{r.type}/{'frozen' if frozen else 'unfrozen'}", r.text)
         did.append(st_)
     fi = [i for i, s in enumerate(did) if s == "freeze"]
-    out.nontrivial = bool(fi) and "forward" in did[: fi[0] + 1] + ["forward"] and any(s in ("freeze_again", "deepcopy", "reload", "to_cpu_copy", "continue_on_copy", "freeze") for s in did[fi[0] + 1 :])
+    out.nontrivial = bool(fi) and "forward" in did[: fi[0] + 1] + ["forward"] and (any(s in ("freeze_again", "deepcopy", "reload", "to_cpu_copy", "continue_on_copy", "freeze") for s in did[fi[0] + 1 :]) or "freeze_one" in did[: fi[0]])
     return out
 
 
